@@ -1,13 +1,14 @@
 package main
 
 import (
+	"d2v/harness/hl"
 	"sort"
 
 	"oss.terrastruct.com/d2/d2renderers/d2animate"
 )
 
 // C33: keyframe CSS of the real makeKeyframe (verif hook) for board schedules (n boards, interval T).
-func init() { register("C33", runC33) }
+func main() { hl.Main("C33", runC33) }
 
 func c33Case(n, T int, boards []int) map[string]any {
 	css := make([]string, len(boards))
@@ -26,7 +27,7 @@ func allBoards(n int) []int {
 	return b
 }
 
-func runC33(c *Ctx) error {
+func runC33(c *hl.Ctx) error {
 	if cs := c.ReplayCase(); cs != nil {
 		in := cs["in"].(map[string]any)
 		var boards []int
